@@ -35,8 +35,17 @@
                acknowledgement boundaries")
 
    Not modelled: JoinSeq/StartSeq, UpdatedAt, TombstoneAt (held constant by the
-   harness, not compared).  Channels are numbered 1..NCh; the harness names them
-   "g<n>" so that the numeric order is the key order of the index. *)
+   harness, not compared).
+
+   Channels: a channel is a pair (channel id, channel type) - the type is part of the
+   primary key and of the activation index key, so one user may hold the SAME channel
+   id under several types.  Channels are numbered 1..NCh in key order; channel n has
+   id ChId(n) = (n+1) \div 2 and type ChType(n) = 2 - n % 2, i.e.
+       1 = (g1, type 1)   2 = (g1, type 2)   3 = (g2, type 1)   4 = (g2, type 2)
+   so channels 1/2 (and 3/4) share one id and differ in type only, and channel 3
+   sorts after channel 2 although its type is smaller (id-major order).  The harness
+   names channel n "g<ChId(n)>" with channel type ChType(n); command channels get the
+   same id with the "____cmd" suffix and the same type. *)
 EXTENDS Integers, Sequences, FiniteSets, SequencesExt
 
 CONSTANTS
@@ -62,6 +71,10 @@ VARIABLES
 
 vars == <<mem, cmd, pass, ev>>
 Chans == 1..NCh
+ChId(c)   == (c + 1) \div 2
+ChType(c) == 2 - (c % 2)
+\* key order of (channel id, channel type)
+KeyLess(c, d) == ChId(c) < ChId(d) \/ (ChId(c) = ChId(d) /\ ChType(c) < ChType(d))
 
 MAbsent == [present |-> FALSE, tomb |-> FALSE, read |-> 0, del |-> 0, at |-> 0, sv |-> 0]
 CAbsent == [present |-> FALSE, tomb |-> FALSE, ack |-> 0]
@@ -141,8 +154,8 @@ Call(op)   == Commit(<<op>>, "Call", [a |-> "Call", op |-> op, res |-> [err |-> 
 Batch(ops) == Commit(ops, "Batch", [a |-> "Batch", ops |-> ops, res |-> [err |-> "ok"]])
 
 \* ---- directory scan --------------------------------------------------------------
-\* Index order: activation time descending, then channel.
-Before(a, b) == a.at > b.at \/ (a.at = b.at /\ a.c < b.c)
+\* Index order: activation time descending, then channel id, then channel type.
+Before(a, b) == a.at > b.at \/ (a.at = b.at /\ KeyLess(a.c, b.c))
 Entries(mm, u, livOnly) ==
   SetToSortSeq({[c |-> c, at |-> mm[u][c].at] :
                   c \in {x \in Chans : mm[u][x].present /\ (livOnly => ~mm[u][x].tomb)}}, Before)
@@ -193,6 +206,17 @@ AllOps(T, V, A, S) ==
   {o \in OpsOn(MemSlots, Kinds, T, V, A, S, FALSE) \cup OpsOn(CmdSlots, Kinds, T, V, A, S, TRUE) : o.k \in Kinds}
 SingleOps == AllOps(Tombs, Vals, Ats, SVs)
 BOps      == AllOps(Tombs, BVals, {1} \cap Ats, BSVs)
+\* Two operations on the SAME row inside one batch (the second is resolved against
+\* what the first staged, not against the stored row), with the full value domain:
+\*   command-channel binding: every pair of cupsert / cack / ctomb
+\*   conversation membership: a source write (upsert / ensure, batch source versions)
+\*                            followed by a live-row mutator (read / hide / activate);
+\*                            the opposite order is in BOps x BOps with the batch values
+SameRow(o1, o2) == o1.u = o2.u /\ o1.c = o2.c
+CPairOps  == {o \in SingleOps : o.k \in {"cupsert", "cack", "ctomb"}}
+MSrcOps   == {o \in AllOps({FALSE}, Vals, {0}, BSVs) : o.k \in {"upsert", "ensure"}}
+MMutOps   == {o \in SingleOps : o.k \in {"read", "hide", "activate"}}
+SamePair(o1, o2) == SameRow(o1, o2) /\ ((o1 \in CPairOps /\ o2 \in CPairOps) \/ (o1 \in MSrcOps /\ o2 \in MMutOps))
 Cursors(u) == {ZeroCur} \cup (IF pass[u].on THEN {pass[u].cur} ELSE {})
                 \cup (IF Stray THEN {[c |-> c, at |-> a] : c \in Chans, a \in Ats} ELSE {})
 
@@ -200,6 +224,7 @@ Next ==
   \/ \E o \in SingleOps : Call(o)
   \/ \E o \in BOps : Batch(<<o>>)
   \/ \E o1 \in BOps, o2 \in BOps : Batch(<<o1, o2>>)
+  \/ \E o1 \in CPairOps \cup MSrcOps, o2 \in CPairOps \cup MMutOps : SamePair(o1, o2) /\ Batch(<<o1, o2>>)
   \/ \E u \in Users, n \in Sizes : \E cur \in Cursors(u) : ListPage(u, cur, n)
   \/ Reopen
 
@@ -272,7 +297,7 @@ C16_FailedUnchanged ==
   [][ev'.a \in {"Call", "Batch"} /\ ev'.res.err # "ok" => mem' = mem /\ cmd' = cmd]_vars
 
 \* A completed directory pass listed each live membership exactly once, in
-\* (activation time descending, channel) order.
+\* (activation time descending, channel id, channel type) order.
 C16_PassExact ==
   \A u \in Users : pass[u].fin => pass[u].acc = LiveSorted(mem, u)
 
